@@ -88,7 +88,11 @@ class Script:
         return Script(f"{self.name}.{attr}", self.log, self.plan)
 
 
+DEFAULT_HINT = [None]      # module of the function under replay: same-named classes (ThreatLevel x2) resolve as they do there
+
+
 def find_class(name, modhint=None):
+    modhint = modhint or DEFAULT_HINT[0]
     if modhint:
         m = importlib.import_module(modhint)
         if hasattr(m, name):
@@ -106,11 +110,16 @@ def find_class(name, modhint=None):
 
 def conv(val, ty):
     k = ty[0] if ty else "any"
+    if k == "opt":
+        return conv(val, ty[1])
     if isinstance(val, dict) and "num" in val:
-        f = Fraction(val["num"], val["den"])
-        return float(f)
-    if isinstance(val, dict) and "approx" in val:
-        return float(val["approx"].rstrip("?"))
+        val = float(Fraction(val["num"], val["den"]))
+        if k not in ("datetime", "timedelta"):
+            return val
+    elif isinstance(val, dict) and "approx" in val:
+        val = float(val["approx"].rstrip("?"))
+        if k not in ("datetime", "timedelta"):
+            return val
     if k == "enum":
         return getattr(find_class(ty[1]), val)
     if k in ("real",):
@@ -201,6 +210,7 @@ def build(rep, spec_mod):
     rel, qual = target.split("::")
     modname = rel[:-3].replace("/", ".")
     mod = importlib.import_module(modname)
+    DEFAULT_HINT[0] = modname
     roots = {}
     args = {}
     cls = None
@@ -225,6 +235,9 @@ def build(rep, spec_mod):
             if isinstance(v, str) and v.startswith("@new:"):
                 sub = S.REG.constructors[v[5:]]
                 kwargs[k] = find_class(v[5:], sub["module"])(**sub["init"])
+            elif isinstance(v, str) and v.startswith("@enum:"):
+                en, mem = v[6:].split(".")
+                kwargs[k] = getattr(find_class(en, ctor["module"]), mem)
         with contextlib.redirect_stdout(io.StringIO()):
             roots[n] = C(**kwargs)
     # nested objects first (shorter paths first), then scalars
@@ -260,7 +273,9 @@ def build(rep, spec_mod):
             continue
         if ty is None:
             continue
-        if ty[0] in ("obj", "list", "dict", "set", "lock", "tuple", "any", "callback", "opt"):
+        if ty[0] == "opt" and ty[1] and ty[1][0] in ("int", "real", "bool", "str", "enum", "datetime", "timedelta"):
+            pass          # a present optional scalar (the #none flag was handled above)
+        elif ty[0] in ("obj", "list", "dict", "set", "lock", "tuple", "any", "callback", "opt"):
             continue
         try:
             v = conv(model[n], ty)
@@ -357,7 +372,7 @@ def run_once(rep, path):
 
     def call():
         try:
-            with contextlib.redirect_stdout(io.StringIO()):
+            with contextlib.redirect_stdout(io.StringIO()), fake_clock(mod, rep.get("model", {})):
                 if rep.get("is_init"):
                     res["self"] = cls(**args)
                     res["value"] = None
@@ -447,6 +462,170 @@ def run_once(rep, path):
     return out
 
 
+class _Clock:
+    """the model's clock readings (now, now!1, ...) served in order; afterwards the last one (the engine assumes a monotone clock)"""
+
+    def __init__(self, model):
+        import re as _re
+        ks = sorted((k for k in model if _re.fullmatch(r"now(!\d+)?", k)), key=lambda k: int(k.split("!")[1]) if "!" in k else 0)
+        self.vals = []
+        for k in ks:
+            v = model[k]
+            self.vals.append(float(Fraction(v["num"], v["den"])) if isinstance(v, dict) and "num" in v else float(v) if not isinstance(v, dict) else 0.0)
+        self.i = 0
+
+    def next(self):
+        if not self.vals:
+            return 0.0
+        v = self.vals[min(self.i, len(self.vals) - 1)]
+        self.i += 1
+        return v
+
+
+@contextlib.contextmanager
+def fake_clock(mod, model):
+    """datetime.now()/utcnow() and time.time()/monotonic()/perf_counter() as seen from the target module read the model's clock"""
+    import datetime as _dt, time as _time, types as _types
+    clock = _Clock(model)
+    if not clock.vals:
+        yield
+        return
+    saved = {}
+
+    class FakeDT(_dt.datetime):
+        @classmethod
+        def now(cls, tz=None):
+            return _dt.datetime.fromtimestamp(1_700_000_000 + clock.next())
+
+        @classmethod
+        def utcnow(cls):
+            return _dt.datetime.fromtimestamp(1_700_000_000 + clock.next())
+    if getattr(mod, "datetime", None) is _dt.datetime:
+        saved["datetime"] = mod.datetime
+        mod.datetime = FakeDT
+    elif getattr(mod, "datetime", None) is _dt:
+        saved["datetime"] = mod.datetime
+        fm = _types.SimpleNamespace(**{k: getattr(_dt, k) for k in dir(_dt) if not k.startswith("__")})
+        fm.datetime = FakeDT
+        mod.datetime = fm
+    # `import time` may be local to the function: patch the functions on the time module itself (threading keeps its own reference to monotonic)
+    tsaved = {k: getattr(_time, k) for k in ("time", "monotonic", "perf_counter")}
+    me = threading.get_ident()
+    for k in tsaved:
+        setattr(_time, k, (lambda real: (lambda: clock.next() if threading.get_ident() == me else real()))(tsaved[k]))
+    try:
+        yield
+    finally:
+        for k, v in tsaved.items():
+            setattr(_time, k, v)
+        for k, v in saved.items():
+            setattr(mod, k, v)
+
+
+def xcheck_file(path):
+    """CPython cross-check of the encoder: each entry carries a model of one symbolic path and the outcome the engine predicts for it.
+    Build that pre-state, run the real function, compare return value / exception class / scalar fields.  Prints one JSON line."""
+    from pyvc import spec as S
+    data = json.load(open(path))
+    out = {"checked": 0, "agree": 0, "skipped": 0, "disagreements": []}
+    loaded = None
+
+    def same(pred, got):
+        if pred == "?":
+            return True
+        if isinstance(pred, dict) and "enum" in pred:
+            return isinstance(got, enum.Enum) and got.name == pred["member"]
+        if isinstance(pred, dict) and "tuple" in pred:
+            return isinstance(got, tuple) and len(got) == len(pred["tuple"]) and all(same(a, b) for a, b in zip(pred["tuple"], got))
+        if isinstance(pred, dict) and "real" in pred:
+            pr = pred["real"]
+            pf = float(Fraction(pr["num"], pr["den"])) if isinstance(pr, dict) and "num" in pr else (float(str(pr.get("approx", "0")).rstrip("?")) if isinstance(pr, dict) else float(pr))
+            if pred.get("unit") == "timedelta":
+                got = got.total_seconds() if hasattr(got, "total_seconds") else got
+            if pred.get("unit") == "datetime":
+                return True           # absolute clock readings are not comparable
+            try:
+                return abs(float(got) - pf) <= 1e-6 * max(1.0, abs(pf))
+            except (TypeError, ValueError):
+                return False
+        if isinstance(pred, bool) or isinstance(got, bool):
+            return isinstance(got, bool) and isinstance(pred, bool) and pred == got
+        if isinstance(pred, int) and isinstance(got, float):
+            return abs(got - pred) <= 1e-6 * max(1.0, abs(pred))
+        return pred == got
+    for rep in data:
+        try:
+            if loaded != rep["contract_file"]:
+                S.REG.clear()
+                cpath = os.path.join(os.path.dirname(HERE), rep["contract_file"])
+                specm = importlib.util.spec_from_file_location("contract_native", cpath)
+                cmod = importlib.util.module_from_spec(specm)
+                specm.loader.exec_module(cmod)
+                loaded = rep["contract_file"]
+            mod, cls, mname, roots, args, log = build(rep, cmod)
+        except Exception as e:      # the state builder cannot realise this model: not a verdict about the encoder
+            out["skipped"] += 1
+            out.setdefault("skip_reasons", {}).setdefault(type(e).__name__ + ": " + str(e)[:60], 0)
+            out["skip_reasons"][type(e).__name__ + ": " + str(e)[:60]] += 1
+            continue
+        res = {}
+
+        def call():
+            try:
+                with contextlib.redirect_stdout(io.StringIO()), fake_clock(mod, rep["model"]):
+                    if rep.get("is_init"):
+                        res["self"] = cls(**args)
+                        res["value"] = None
+                    elif "self" in roots:
+                        res["value"] = getattr(roots["self"], mname)(**args)
+                    else:
+                        res["value"] = getattr(mod, mname)(**args)
+            except BaseException as e:      # noqa
+                res["exc"] = e
+        th = threading.Thread(target=call, daemon=True)
+        th.start()
+        th.join(5)
+        if th.is_alive():
+            out["skipped"] += 1
+            continue
+        pred = rep["predicted"]
+        out["checked"] += 1
+        bad = []
+        exc = res.get("exc")
+        if isinstance(exc, ReentryDetected):
+            out["checked"] -= 1
+            out["skipped"] += 1
+            continue
+        if (exc is None) != (pred["exc"] is None):
+            bad.append(f"engine predicts {'exception ' + str(pred['exc']) if pred['exc'] else 'a normal return'}, CPython {'raised ' + type(exc).__name__ + ': ' + str(exc)[:80] if exc else 'returned ' + repr(res.get('value'))[:80]}")
+        elif exc is not None:
+            names = [c_.__name__ for c_ in type(exc).__mro__]
+            if pred["exc"] not in names and not pred.get("arbitrary_exc"):
+                bad.append(f"engine predicts {pred['exc']}, CPython raised {type(exc).__name__}")
+        elif not same(pred["result"], res.get("value")):
+            bad.append(f"return value: engine {pred['result']!r}, CPython {res.get('value')!r}")
+        if exc is None or True:
+            robj = dict(roots)
+            if rep.get("is_init"):
+                robj["self"] = res.get("self")
+            for fpath, pv_ in pred["fields"].items():
+                root, _, attr = fpath.partition(".")
+                o = robj.get(root)
+                if o is None or "." in attr or not hasattr(o, attr):
+                    continue
+                got = getattr(o, attr)
+                if isinstance(got, (list, dict, set)) or callable(got) and not isinstance(got, enum.Enum):
+                    continue
+                if not same(pv_, got):
+                    bad.append(f"field {fpath}: engine {pv_!r}, CPython {got!r}")
+        if bad:
+            out["disagreements"].append({"target": rep["target"], "path": rep["path"], "model": rep["model"], "what": bad[:4]})
+        else:
+            out["agree"] += 1
+    print(json.dumps(out, default=str))
+    return 0
+
+
 def variants(rep):
     """bounded search around the counter-model: collaborator results are re-drawn from the string constants of the
     target module (the model of a havocked callee need not be realisable by the real callee)"""
@@ -474,6 +653,8 @@ def variants(rep):
 
 
 def main():
+    if sys.argv[1] == "--xcheck":
+        return xcheck_file(sys.argv[2])
     path = sys.argv[1]
     rep = json.load(open(path))
     out = run_once(rep, path)
